@@ -27,9 +27,10 @@ SlotsOf(s) == [k \in 1..(s.npos + s.nkw) |-> Slot(s, k)]
 
 \* `prev` = the mode of an earlier sync_properties call in the same process from the same (unchanged) input file into some
 \* other output ("none" = no earlier call): the result must not depend on it (HistoryIndependent)
-Cases == {c \in [shape : Shapes, target : 1..6, input : InputKinds, mode : Modes] :
+\* same: the input property carries the SAME NAME as the selected slot (the commonest use: keep two declarations of one thing in step)
+Cases == {c \in [shape : Shapes, target : 1..6, input : InputKinds, mode : Modes, same : BOOLEAN] :
             /\ c.target <= c.shape.npos + c.shape.nkw
-            /\ (c.mode = "eval" => c.input = "class_attr")}        \* eval reads a top-level name; the input kind is irrelevant then
+            /\ (c.mode = "eval" => c.input = "class_attr" /\ ~c.same)}        \* eval reads a top-level name; the input kind is irrelevant then
 
 SrcName == <<"src", 0>>
 SrcAnn(mode) == CASE mode = "plain" -> <<"SrcT", 0>> [] mode = "wrap" -> <<"Wrap(SrcT)", 0>> [] mode = "eval" -> <<"Literal(values)", 0>>
@@ -48,11 +49,15 @@ FromParamInvalid == "class_attr_target_from_fn_param_invalid" \in Enabled /\ c.s
 Fired == (IF ValueReplaced THEN {"class_attr_target_value_replaced"} ELSE {})
          \cup (IF FromParamInvalid THEN {"class_attr_target_from_fn_param_invalid"} ELSE {})
 
+\* a same-named class attribute that carries a VALUE also hands that value to the selected positional parameter -- as its default, if
+\* the parameter has one (a deliberate feature of the command; no OTHER default may move)
+SetsOwnDefault == c.same /\ c.input = "class_attr" /\ c.mode # "eval" /\ c.shape.kind # "class" /\ c.target <= c.shape.npos
 SyncProp == /\ pc = "start"
-            /\ slots' = [slots EXCEPT ![c.target] = [@ EXCEPT !.name = IF c.mode = "eval" THEN @ ELSE SrcName,
+            /\ slots' = [slots EXCEPT ![c.target] = [@ EXCEPT !.name = IF c.mode = "eval" \/ c.same THEN @ ELSE SrcName,
                                                               !.ann = SrcAnn(c.mode),
                                                               !.def = IF ValueReplaced
                                                                       THEN (IF c.mode = "eval" THEN <<"none", 0>> ELSE <<"srcvalue", 0>>)
+                                                                      ELSE IF SetsOwnDefault /\ @ # <<"none", 0>> THEN <<"srcvalue", 0>>
                                                                       ELSE @]]
             /\ pc' = (IF FromParamInvalid THEN "raised" ELSE "done") /\ UNCHANGED <<c, prev, input>>
 Next == SyncProp
@@ -61,14 +66,17 @@ Spec == Init /\ [][Next]_vars
 Orig == SlotsOf(c.shape)
 OnlyTarget == pc = "done" => \A k \in 1..Len(slots) : k # c.target => slots[k] = Orig[k]
 DefaultsAligned == (pc = "done" /\ Fired = {}) => /\ Len(slots) = Len(Orig)
-                                  /\ \A k \in 1..Len(slots) : slots[k].def = Orig[k].def /\ slots[k].kwonly = Orig[k].kwonly
+                                  \* (no default moves, appears or disappears; the SELECTED slot's own default may take the input's value)
+                                  /\ \A k \in 1..Len(slots) : /\ slots[k].kwonly = Orig[k].kwonly
+                                                                /\ (slots[k].def = Orig[k].def
+                                                                    \/ (k = c.target /\ SetsOwnDefault /\ Orig[k].def # <<"none", 0>> /\ slots[k].def = <<"srcvalue", 0>>))
 InputUntouched == input = "original"
 \* the post-state is a function of (shape, target, input, mode) alone
 HistoryIndependent == pc = "done" => slots = [SlotsOf(c.shape) EXCEPT ![c.target] = slots[c.target]]   \* `prev` occurs nowhere in the post-state
 TargetUpdated == pc = "done" => /\ slots[c.target].ann = SrcAnn(c.mode)
-                                /\ slots[c.target].name = (IF c.mode = "eval" THEN Orig[c.target].name ELSE SrcName)
+                                /\ slots[c.target].name = (IF c.mode = "eval" \/ c.same THEN Orig[c.target].name ELSE SrcName)
 RECURSIVE SetToSeq(_)
 SetToSeq(S) == IF S = {} THEN <<>> ELSE LET x == CHOOSE x \in S : TRUE IN <<x>> \o SetToSeq(S \ {x})
-Dump == pc \in {"done", "raised"} => PrintT(ToJson([c |-> [shape |-> c.shape, target |-> c.target, input |-> c.input, mode |-> c.mode, prev |-> prev], before |-> Orig, after |-> slots, raises |-> (pc = "raised"),
+Dump == pc \in {"done", "raised"} => PrintT(ToJson([c |-> [shape |-> c.shape, target |-> c.target, input |-> c.input, mode |-> c.mode, same |-> c.same, prev |-> prev], before |-> Orig, after |-> slots, raises |-> (pc = "raised"),
                                                     devs |-> SetToSeq(Fired)]))
 =====================================================================================
